@@ -195,15 +195,15 @@ Print Assumptions C04_node_hash_values_are_translated.
    of them re-opens this property even if no sampled case shows a difference.  Rewritten by tools/pin_shapes.py on a tree on which every check passes. *)
 From Connectome Require GlueCacheGen GlueColumnsGen.
 Theorem C04_mirrored_functions_are_the_pinned_ones :
-  GlueCacheGen.shape_class_CacheToStorage = "bb02462476ebf5a3" /\
-  GlueCacheGen.shape_class_CacheToRam = "671471faaea3be32" /\
-  GlueCacheGen.shape_class_CacheToDisk = "ab13d5028a9842ed" /\
-  GlueCacheGen.shape_priv_normalize_disk_arguments = "8b4510643237a667" /\
-  GlueCacheGen.shape_priv_resolve_serializer = "37e132734e002621" /\
-  GlueCacheGen.shape_class_DynamicConnectLayer = "7ece76ebf623a344" /\
-  GlueCacheGen.shape_class_MemoryCache = "cfe8167a538c6fe4" /\
-  GlueCacheGen.shape_class_DiskCache = "71fb3386aa709b95" /\
-  GlueColumnsGen.shape_class_CacheColumns = "50ebcb3d340e0894".
+  GlueCacheGen.shape_class_CacheToStorage = "bb02462476ebf5a3"%string /\
+  GlueCacheGen.shape_class_CacheToRam = "671471faaea3be32"%string /\
+  GlueCacheGen.shape_class_CacheToDisk = "ab13d5028a9842ed"%string /\
+  GlueCacheGen.shape_priv_normalize_disk_arguments = "8b4510643237a667"%string /\
+  GlueCacheGen.shape_priv_resolve_serializer = "37e132734e002621"%string /\
+  GlueCacheGen.shape_class_DynamicConnectLayer = "7ece76ebf623a344"%string /\
+  GlueCacheGen.shape_class_MemoryCache = "cfe8167a538c6fe4"%string /\
+  GlueCacheGen.shape_class_DiskCache = "71fb3386aa709b95"%string /\
+  GlueColumnsGen.shape_class_CacheColumns = "50ebcb3d340e0894"%string.
 Proof. repeat split; reflexivity. Qed.
 Print Assumptions C04_mirrored_functions_are_the_pinned_ones.
 (* END PINNED FINGERPRINTS *)
